@@ -318,8 +318,13 @@ sts_some_aux(Source *source, Sink *sink, ByteBuffer *b)
 {
     void *buf = b->data + b->offset;
     const size_t n = byte_buffer_rest(b);
+    if (n == 0u) {
+        /* No room designated in the auxiliary buffer. */
+        return -EINVAL;
+    }
     const ssize_t rc = source_get_chunk_atmost(source, buf, n);
-    return (rc < 0) ? rc : sink_put_chunk(sink, buf, n);
+    /* Pass on exactly what the source delivered. */
+    return (rc <= 0) ? rc : sink_put_chunk(sink, buf, (size_t)rc);
 }
 
 ssize_t
@@ -327,8 +332,9 @@ sts_atmost_aux(Source *source, Sink *sink, ByteBuffer *b, const size_t n)
 {
     ByteBuffer buffer;
     memcpy(&buffer, b, sizeof(*b));
-    if (buffer.size > n) {
-        buffer.size = n;
+    if (byte_buffer_rest(&buffer) > n) {
+        /* sts_some_aux() transfers up to rest(buffer) octets. */
+        buffer.used = buffer.offset + n;
     }
     return sts_some_aux(source, sink, &buffer);
 }
